@@ -336,17 +336,17 @@ func verifH_C07_untyped_params() {
 //verif:harness id=C07 tier=quick,thorough witness=end bounds="same name, different location (shared with C05): a required path-item parameter id in query / header / cookie and an operation parameter id in query / header / cookie; each absent, 5, or x: overriding is by name and location"
 func verifH_C07_same_name_locations() { verifSameNameLocations("C07") }
 
-//verif:harness id=C07 tier=quick,thorough witness=end,accepted,rejected bounds="the body part of a request: request body required or optional, declared as text/plain (string, maxLength symbolic 0..4) or application/json (object) x body absent / empty / ab / three blanks (space CR LF) / abcd / {} x ExcludeRequestBody symbolic x MultiError symbolic, through ValidateRequest: the request passes iff the body is excluded, or absent-or-empty and optional, or present and valid (a body of blanks is a body)"
+//verif:harness id=C07 tier=quick,thorough witness=end,accepted,rejected bounds="the body part of a request: request body required or optional, declared as text/plain (string, maxLength symbolic 0..4) or application/json (object) x body absent / empty / ab / three blanks (space CR LF) / abcd / {} / null (the JSON schema nullable or not, symbolic) x ExcludeRequestBody symbolic x MultiError symbolic, through ValidateRequest: the request passes iff the body is excluded, or absent-or-empty and optional, or present and valid (a body of blanks is a body)"
 func verifH_C07_body_part() {
 	maxLen := uint64(verifChoose("maxLength", 5))
 	isJSON := verifChoose("json", 2) == 1
 	mtName, schema := "text/plain", &openapi3.Schema{Type: &openapi3.Types{"string"}, MaxLength: &maxLen}
 	if isJSON {
-		mtName, schema = "application/json", &openapi3.Schema{Type: &openapi3.Types{"object"}}
+		mtName, schema = "application/json", &openapi3.Schema{Type: &openapi3.Types{"object"}, Nullable: verifNondetBool("nullable")}
 	}
 	required := verifChoose("required", 2) == 1
 	op := &openapi3.Operation{RequestBody: &openapi3.RequestBodyRef{Value: &openapi3.RequestBody{Required: required, Content: openapi3.Content{mtName: &openapi3.MediaType{Schema: &openapi3.SchemaRef{Value: schema}}}}}}
-	bodies := []string{"", "ab", " \r\n", "abcd", "{}"}
+	bodies := []string{"", "ab", " \r\n", "abcd", "{}", "null"}
 	bi := verifChoose("body", len(bodies)+1) // the last choice: no body at all
 	req := &http.Request{Method: "POST", Header: http.Header{"Content-Type": []string{mtName}}, URL: &url.URL{Path: "/"}}
 	body := ""
@@ -364,7 +364,8 @@ func verifH_C07_body_part() {
 	case body == "":
 		want = !required
 	case isJSON:
-		want = body == "{}"
+		// a body that is the JSON null is a value like any other: it passes only a nullable schema
+		want = body == "{}" || body == "null" && schema.Nullable
 	default:
 		want = uint64(len(body)) <= maxLen
 	}
